@@ -1071,3 +1071,6 @@ def check(model, rep, tier):
     partition_clause(model, rep, funcs)
     registry_clause(model, rep, funcs)
     sharing_clause(model, rep, funcs)
+    from .common import dask_key_obligations
+    dask_key_obligations(model, rep, "1 order")
+    rep.floor("KEY.site", 8, "(from_array / from_delayed / delayed / map_blocks call sites)")
